@@ -47,7 +47,12 @@ impl TraceSink {
     }
 
     /// Append one event; returns its sequence number.
-    pub fn emit(&self, name: &str, mut fields: Map<String, Value>) -> u64 {
+    pub fn emit(&self, name: &str, fields: Map<String, Value>) -> u64 {
+        self.emit_as(&thread_label(), name, fields)
+    }
+
+    /// Append one event on behalf of the thread with the given label.
+    pub fn emit_as(&self, label: &str, name: &str, mut fields: Map<String, Value>) -> u64 {
         // TLC's JSON module cannot read null
         fn scrub(v: &mut Value) {
             match v {
@@ -58,7 +63,6 @@ impl TraceSink {
             }
         }
         fields.values_mut().for_each(scrub);
-        let label = thread_label();
         let mut st = self.state.lock();
         let i = st.next;
         st.next += 1;
@@ -160,6 +164,11 @@ impl<'a> Conv<'a> {
 
 /// The observer installed into raindb: forwards events into the sink.
 pub struct SinkObserver {
+    /// version captures of gets that have not been logged (yet): thread label -> fields.
+    /// A capture is only logged if background work starts before the get is done, because only
+    /// then can the pinned version differ from the current one; see `event`.
+    pub lazy_gets: Mutex<std::collections::HashMap<String, (Map<String, Value>, bool)>>,
+    pub bg_active: std::sync::atomic::AtomicBool,
     pub sink: Arc<TraceSink>,
     pub want_contents: bool,
     /// optional scheduling controller
@@ -191,6 +200,40 @@ impl Observer for SinkObserver {
         let mut m = Map::new();
         for (k, v) in &fields {
             m.insert((*k).to_string(), conv.val(k, v));
+        }
+        // All three hooks below fire while the database mutex is held, so they are serialised.
+        match name {
+            "GetCapture" => {
+                if self.bg_active.load(std::sync::atomic::Ordering::SeqCst) {
+                    self.lazy_gets.lock().insert(thread_label(), (Map::new(), true));
+                } else {
+                    self.lazy_gets.lock().insert(thread_label(), (m, false));
+                    return;
+                }
+            }
+            "GetDone" => {
+                let e = self.lazy_gets.lock().remove(&thread_label());
+                match e {
+                    Some((_, true)) => {}
+                    _ => return,
+                }
+            }
+            "BgEnd" => {
+                self.bg_active
+                    .store(false, std::sync::atomic::Ordering::SeqCst);
+            }
+            "BgBegin" => {
+                self.bg_active
+                    .store(true, std::sync::atomic::Ordering::SeqCst);
+                let mut lazy = self.lazy_gets.lock();
+                for (label, (fields, logged)) in lazy.iter_mut() {
+                    if !*logged {
+                        self.sink.emit_as(label, "GetCapture", fields.clone());
+                        *logged = true;
+                    }
+                }
+            }
+            _ => {}
         }
         self.sink.emit(name, m);
     }
